@@ -4,6 +4,8 @@ import (
 	"fmt"
 	"go/ast"
 	"go/constant"
+	"go/token"
+	"go/types"
 	"regexp"
 	"sort"
 	"strings"
@@ -145,6 +147,65 @@ func nilStores(fd *ast.FuncDecl) []*ast.AssignStmt {
 	return out
 }
 
+// subtreeStores lists assignments in fd that overwrite a field holding an AST subtree
+// (static type declared in go/ast, or a pointer to / slice of such) with a non-nil value.
+func subtreeStores(c *ctx.Ctx, fd *ast.FuncDecl) []*ast.AssignStmt {
+	pkg := c.Pkg("build")
+	if pkg == nil {
+		return nil
+	}
+	isAST := func(t types.Type) bool {
+		for {
+			switch x := t.(type) {
+			case *types.Pointer:
+				t = x.Elem()
+				continue
+			case *types.Slice:
+				t = x.Elem()
+				continue
+			case *types.Named:
+				return x.Obj().Pkg() != nil && x.Obj().Pkg().Path() == "go/ast"
+			}
+			return false
+		}
+	}
+	var out []*ast.AssignStmt
+	ast.Inspect(fd.Body, func(n ast.Node) bool {
+		as, ok := n.(*ast.AssignStmt)
+		if !ok || as.Tok != token.ASSIGN {
+			return true
+		}
+		for i, l := range as.Lhs {
+			sel, isSel := l.(*ast.SelectorExpr)
+			if !isSel || i >= len(as.Rhs) || exprStr(as.Rhs[i]) == "nil" {
+				continue
+			}
+			// only stores into the file's tree: the selector chain is rooted at a variable holding an AST node
+			var root ast.Expr = sel
+			for {
+				if s2, ok := root.(*ast.SelectorExpr); ok {
+					root = s2.X
+					continue
+				}
+				break
+			}
+			if rt := pkg.TypesInfo.TypeOf(root); rt == nil || !isAST(rt) {
+				continue
+			}
+			if t := pkg.TypesInfo.TypeOf(sel); t != nil && isAST(t) {
+				// squeezing a list in place (X = astutil.Squeeze(X)) is the clean-up itself
+				if call, isCall := as.Rhs[i].(*ast.CallExpr); isCall && len(call.Args) == 1 && exprStr(call.Args[0]) == exprStr(l) {
+					continue
+				}
+				out = append(out, as)
+				break
+			}
+		}
+		return true
+	})
+	return out
+}
+
 // flaggedBefore: walking outwards from the store, some enclosing statement list contains a direct
 // `flag = true` statement (in the same list as an ancestor of the store).
 func flagAccompanies(fd *ast.FuncDecl, store ast.Node, flag string) bool {
@@ -189,6 +250,12 @@ func ruleC12Finalize(c *ctx.Ctx, r *core.Reporter) {
 		}
 		if len(stores) == 0 {
 			r.Undecided("finalize:stores:"+name, c.Pos(fd.Pos()), "no removal marks found")
+		}
+		// replacing a subtree of the file (a receiver, parameter or result list, an expression) drops the
+		// identifiers used in the old subtree just like a removal does, so it needs the same clean-up
+		for i, st := range subtreeStores(c, fd) {
+			ok := flagAccompanies(fd, st, "anyChange")
+			r.Check(ok, fmt.Sprintf("replace-sets-flag:%s#%d:%s", name, i, squash(exprStr(st.Lhs[0]))), c.Pos(st.Pos()), fmt.Sprintf("%s = … replaces a subtree of the file and is accompanied by anyChange = true on its path (otherwise an import used only in the old subtree is left behind)", exprStr(st.Lhs[0])))
 		}
 		// last statement: if anyChange { finalizeRemovals(file); pruneImports(file) }
 		last := fd.Body.List[len(fd.Body.List)-1]
